@@ -362,6 +362,81 @@ fn run_steps(t: &mut Twin, steps: &[(String, Vec<Bytes>)]) -> Result<CaseOut, St
     Ok(CaseOut { problems, frames: total_frames, trace, effect: any_effect })
 }
 
+
+/// Several connections, each parked in a database of its own (0, 1, 15), take turns: the log has to say for every
+/// command which database it ran in, whoever logged last. Menu per connection: 8 writes (direct, queued, scripted,
+/// with a random outcome); every sequence of 2 (thorough 3) turns.
+const INTERLEAVE_DBS: [usize; 3] = [0, 1, 15];
+
+fn interleave_menu() -> Vec<(&'static str, &'static str, Vec<&'static str>)> {
+    vec![
+        ("SET", "direct", vec!["SET", "k", "v"]), ("RPUSH", "direct", vec!["RPUSH", "l", "x"]), ("SADD", "direct", vec!["SADD", "s", "a", "b", "c"]), ("SPOP", "direct", vec!["SPOP", "s"]),
+        ("INCR in EXEC", "exec", vec!["INCR", "n"]), ("SET via EVAL", "eval", vec!["SET", "k", "scripted"]), ("DEL", "direct", vec!["DEL", "k"]), ("XADD *", "direct", vec!["XADD", "st", "*", "f", "v"]),
+    ]
+}
+
+fn interleave_case(i: usize, len: usize) -> Vec<(usize, usize)> {
+    let m = interleave_menu().len() * INTERLEAVE_DBS.len();
+    let mut v = Vec::new();
+    let mut x = i;
+    for _ in 0..len {
+        let a = x % m;
+        x /= m;
+        v.push((a / interleave_menu().len(), a % interleave_menu().len()));
+    }
+    v
+}
+
+fn run_interleaved(t: &mut Twin, turns: &[(usize, usize)]) -> Result<CaseOut, String> {
+    t.reset()?;
+    let menu = interleave_menu();
+    let mut problems: Vec<(String, Value)> = Vec::new();
+    let mut trace = Vec::new();
+    let mut conns: Vec<Client> = Vec::new();
+    for d in INTERLEAVE_DBS.iter() {
+        let mut c = t.l.connect().map_err(|e| format!("connect: {:?}", e))?;
+        let r = t.l.call(&mut c, &[b("SELECT"), b(&d.to_string())]).map_err(|e| format!("SELECT: {:?}", e))?;
+        if r != R::ok() {
+            return Err(format!("SELECT {} -> {}", d, resp::show(&r)));
+        }
+        conns.push(c);
+    }
+    let _ = t.appended()?;
+    let before = api_dump(&t.l, &mut t.cl)?;
+    for (ci, mi) in turns.iter() {
+        let (_, path, cmd) = &menu[*mi];
+        let cmd = to_bytes(cmd);
+        let mut replies = Vec::new();
+        for req in via(path, &cmd, &None) {
+            replies.push(t.l.call(&mut conns[*ci], &req).map_err(|e| format!("L {}: {:?}", resp::show_cmd(&req), e))?);
+        }
+        trace.push(format!("connection in db{} [{}] {} -> {}", INTERLEAVE_DBS[*ci], path, resp::show_cmd(&cmd), replies.iter().map(resp::class).collect::<Vec<_>>().join(",")));
+    }
+    let (frames, leftover, bad) = t.appended()?;
+    trace.push(format!("appended: {}", frames.iter().map(|f| resp::show_cmd(f)).collect::<Vec<_>>().join(" ; ")));
+    if leftover != 0 {
+        problems.push(("log-ends-in-an-incomplete-frame".into(), json!({"leftover_bytes": leftover})));
+    }
+    if bad != 0 {
+        problems.push(("log-holds-a-frame-that-is-not-a-command".into(), json!({})));
+    }
+    let live = api_dump(&t.l, &mut t.cl)?;
+    let strip = |d: &Dump| -> Vec<((usize, Bytes), String, Vec<Vec<Bytes>>)> { d.iter().map(|(k, e)| (k.clone(), e.ty.clone(), e.val.clone())).collect() };
+    let effect = strip(&before) != strip(&live);
+    t.replay()?;
+    if let Some(cmd) = t.blocked_on.take() {
+        problems.push(("a-logged-command-blocks-when-the-log-is-re-executed".into(), json!({"frame": cmd})));
+    } else {
+        let replayed = api_dump(&t.f, &mut t.cf)?;
+        problems.extend(same_dataset(&live, &replayed));
+    }
+    for mut c in conns {
+        c.discard();
+    }
+    let _ = t.l.steps(2);
+    Ok(CaseOut { problems, frames: frames.len(), trace, effect })
+}
+
 /// a blocked client being served: the pop done on its behalf must be in the log
 fn run_blocking(t: &mut Twin, scenario: usize) -> Result<CaseOut, String> {
     t.reset()?;
@@ -491,10 +566,38 @@ pub fn handle_factory() -> impl FnMut(&str, &Value, &mut WorkerIo) -> (Value, bo
                     cases.push((json!({"kind": "pairs", "i": i, "state": sts[si].0, "path": "direct", "class": format!("{} ; {}", cat[c1].0, cat[c2].0), "policy": policy}), steps));
                 }
             }
-            "blocking" => {}
+            "blocking" | "interleave" => {}
             _ => errors.push(format!("unknown task kind {}", kind)),
         }
         let t = twins.get_mut(&policy).unwrap();
+        if kind == "interleave" {
+            let len = task["len"].as_u64().unwrap_or(2) as usize;
+            let (a, bnd) = (task["range"][0].as_u64().unwrap_or(0) as usize, task["range"][1].as_u64().unwrap_or(0) as usize);
+            for i in a..bnd {
+                let turns = interleave_case(i, len);
+                if i % 64 == 0 {
+                    io.announce_case(json!({"kind": "interleave", "i": i, "len": len}));
+                }
+                let menu = interleave_menu();
+                let class = turns.iter().map(|(c, m)| format!("db{}:{}", INTERLEAVE_DBS[*c], menu[*m].0)).collect::<Vec<_>>().join(" ; ");
+                match run_interleaved(t, &turns) {
+                    Ok(out) => {
+                        n += 1;
+                        frames += out.frames as u64;
+                        if out.effect {
+                            with_effect += 1;
+                        }
+                        for (p, d) in out.problems.iter() {
+                            recs.push(json!({"case": {"kind": "interleave", "i": i, "len": len, "policy": policy, "state": "empty", "path": "interleaved connections", "class": class}, "problem": p, "detail": d, "trace": out.trace}));
+                        }
+                        if out.problems.is_empty() && i % 997 == 0 {
+                            recs.push(json!({"case": {"kind": "interleave", "i": i}, "sample": true, "trace": out.trace}));
+                        }
+                    }
+                    Err(e) => errors.push(format!("interleave {}: {}", i, e)),
+                }
+            }
+        }
         if kind == "blocking" {
             for scenario in 0..8usize {
                 io.announce_case(json!({"kind": "blocking", "scenario": scenario}));
@@ -573,6 +676,18 @@ pub fn parent(tier: &str) -> i32 {
             a += chunk;
         }
     }
+    {
+        // interleaved connections in databases 0, 1, 15
+        let len = if thorough { 3usize } else { 2 };
+        let m = interleave_menu().len() * INTERLEAVE_DBS.len();
+        let total = m.pow(len as u32);
+        let chunk = if thorough { 300usize } else { 40 };
+        let mut a = 0;
+        while a < total {
+            tasks.push(json!({"kind": "interleave", "policy": "always", "len": len, "range": [a, (a + chunk).min(total)]}));
+            a += chunk;
+        }
+    }
     let out = pool.map(tasks.clone(), 0);
     let mut histories = 0u64;
     let mut frames = 0u64;
@@ -598,6 +713,7 @@ pub fn parent(tier: &str) -> i32 {
                     let kind = c["kind"].as_str().unwrap_or("");
                     let replay_task = match kind {
                         "blocking" => json!({"kind": "blocking", "policy": c["policy"]}),
+                        "interleave" => json!({"kind": "interleave", "policy": c["policy"], "len": c["len"], "range": [c["i"], c["i"].as_u64().map(|x| x + 1)]}),
                         k => json!({"kind": k, "policy": c["policy"], "range": [c["i"], c["i"].as_u64().map(|x| x + 1)]}),
                     };
                     report.deviations.push(Deviation {
@@ -617,7 +733,7 @@ pub fn parent(tier: &str) -> i32 {
     report.coverage = json!({
         "states": histories.max(1), "transitions": frames.max(1), "traces_validated_against_impl": histories, "samples": samples, "exhaustive": true,
         "histories_with_effect": with_effect,
-        "explanation": format!("states = histories executed on the real appendonly server and re-executed from its log on the real twin; transitions = command frames decoded from the log. Complete product: {} key states x {} paths (direct, MULTI/EXEC, EVAL forwarding script, EVALSHA of it, the same in database 1) x {} catalogue entries (every write command of the dispatch table in effective, no-op and refused variants, commands with random outcomes, scripts with one / two / random / no writes), plus every ordered pair of catalogue entries from the empty dataset (thorough: from every key state) and 8 blocking scenarios (a blocked BLPOP/BRPOP served by RPUSH/LPUSH, by a push inside EXEC and from a script, two waiters, two keys, served at once, timed out). After every step: appended bytes decode into whole command arrays with nothing left over; a step that changed the dataset appended at least one and at most one command image; a command with a random outcome is not logged verbatim. At the end: FLUSHALL + SCRIPT FLUSH on the twin, the whole file re-executed over TCP in order, API-level dump of all 16 databases equal (values; TTL presence). fsync policy always (thorough: also no, everysec).", sts.len(), PATHS.len(), cat.len()),
+        "explanation": format!("states = histories executed on the real appendonly server and re-executed from its log on the real twin; transitions = command frames decoded from the log. Complete product: {} key states x {} paths (direct, MULTI/EXEC, EVAL forwarding script, EVALSHA of it, the same in database 1) x {} catalogue entries (every write command of the dispatch table in effective, no-op and refused variants, commands with random outcomes, scripts with one / two / random / no writes), plus every ordered pair of catalogue entries from the empty dataset (thorough: from every key state) and 8 blocking scenarios (a blocked BLPOP/BRPOP served by RPUSH/LPUSH, by a push inside EXEC and from a script, two waiters, two keys, served at once, timed out), plus every sequence of 2 (thorough 3) turns of three connections parked in databases 0, 1 and 15 over a menu of 8 writes (direct, queued, scripted, random outcome). After every step: appended bytes decode into whole command arrays with nothing left over; a step that changed the dataset appended at least one and at most one command image; a command with a random outcome is not logged verbatim. At the end: FLUSHALL + SCRIPT FLUSH on the twin, the whole file re-executed over TCP in order, API-level dump of all 16 databases equal (values; TTL presence). fsync policy always (thorough: also no, everysec).", sts.len(), PATHS.len(), cat.len()),
     });
     report.assumptions = vec![
         "the clock does not move inside a history: expiry is not a command and the statement compares TTL presence only".into(),
